@@ -244,6 +244,22 @@ def run(ck):
             tasks.append({"scen": "metrics", "params": rq,
                           "strat": ["phases", [[a, n, 301], [b, 10000], [a, 10000]]], "gran": "line",
                           "facts": dict(facts, directed=True)})
+    # a callable shuts its own stack down - from a pool worker, or from the retry executor's own thread over a
+    # synchronous base - so that shutdown(wait=True) raises half-way ("cannot join current thread"): the executors are
+    # out of use all the same and the in-use gauges say so
+    for base in ("pool", "sync"):
+        for lay in ([{"t": "retry", "attempts": 2, "sleep": 100}], [{"t": "throttle", "count": 2}], [{"t": "poll", "interval": 300, "raise_at": []}],
+                    [{"t": "timeout", "T": 830}], [{"t": "map"}, {"t": "retry", "attempts": 2, "sleep": 100}], [{"t": "cos"}]):
+            ss = {"stacks": [{"base": base, "workers": 1, "layers": [dict(l) for l in lay]}],
+                  "jobs": [{"st": 0, "S": 100, "K": None, "C": False, "D": [50] if base == "pool" else 0, "script": [["V", 0]],
+                            "polls": 1, "self_shutdown": True}],
+                  "comb": [], "snaps": [50, 1500], "shutdown": [], "horizon": 2500}
+            facts = {k: False for k in D7_FACTS}
+            facts["d7"] = False
+            facts.update(describe(ss))
+            for k in range(2 if quick else 8):
+                tasks.append({"scen": "metrics", "params": ss, "strat": ["random", rng.randrange(10 ** 9), 0.5],
+                              "gran": "line" if k % 2 else "sync", "facts": dict(facts, directed=True)})
     pairs = ck.run_and_validate(tasks, TRACE)
     # bookkeeping for the evidence: which clause failed for which ingredients; did the facts hold up
     drift = 0
